@@ -3136,6 +3136,21 @@ V(id='c09-complex-operand-through-constructor', prop='C09', file='mpmath/ctx_mp_
   old="        if isinstance(x, complex_types): return cls.context.convert(x)\n", new="        if isinstance(x, complex_types): return cls.context.mpc(x)\n",
   expect='fire:V-R7:mpf_convert_rhs')
 
+# ---- C09 V-R8 (seed C09-9: mantissa shortened before the 53-bit rounding) ----
+V(id='c09-to-float-pretruncate', prop='C09', file='mpmath/libmp/libmpf.py',
+  old="    if bc > 53:\n        sign, man, exp, bc = normalize1(sign, man, exp, bc, 53, rnd)",
+  new="    if bc > 53:\n        if bc > 64:\n            man >>= bc - 64\n            exp += bc - 64\n            bc = 64\n        sign, man, exp, bc = normalize1(sign, man, exp, bc, 53, rnd)",
+  expect='fire:V-R8:to_float')
+V(id='c09-to-float-rounds-a-copy', prop='C09', file='mpmath/libmp/libmpf.py',
+  old="    if bc > 53:\n        sign, man, exp, bc = normalize1(sign, man, exp, bc, 53, rnd)",
+  new="    if bc > 53:\n        sign, man, exp, bc = normalize1(sign, man >> 1 << 1, exp, bc, 53, rnd)",
+  expect='fire:V-R8:to_float')
+
+# ---- C03 B-R13 (seed C03-9: divisor computed with the caller's mode) ----
+V(id='c03-pow-sqrt-divisor-same-mode', prop='C03', file='mpmath/libmp/libelefun.py',
+  old="mpf_sqrt(s, prec+10,\n                    reciprocal_rnd[rnd]), prec, rnd)", new="mpf_sqrt(s, prec+10,\n                    rnd), prec, rnd)",
+  expect='fire:B-R13:mpf_pow')
+
 # ---- C08 W-R7 (second hunt; fix 8f543a9) ----
 V(id='c08-exponent-through-str', prop='C08', file='mpmath/libmp/libmpf.py',
   old='    if exponent >= 0: return sign + digits + "e+" + numeral(exponent)\n', new='    if exponent >= 0: return sign + digits + "e+" + str(exponent)\n',
